@@ -61,6 +61,20 @@ CLAIMS = {
          "each through GherkinEvents.enum; recorded streams (corpus, generated, noisy) validated by Trace_Stream with every raw envelope reduced to a shape that must fit the "
          "transcribed Cucumber Messages schema (itself validated on the corpus reference ndjson); CLI JSON round trip.",
          "TLC model checking + spec->code replay + trace validation of recorded streams"),
+
+ "C15": ("model_checking", "Sessions.tla: instances with persistent matcher state, Begin/Token/End actions; TLC enumerates every history (<= 2/3 documents from a pool of 12 "
+         "state-perturbing documents, two default dialects, shared id generator) and every interleaving of two (thorough: three) concurrent parses at loop-iteration "
+         "granularity, checking Inv_Fresh / Inv_Solo / Inv_Independent; each history replayed on ONE real Parser/TokenMatcher/Compiler (state after reset observed), each "
+         "schedule enforced on real parsers in gated threads; determinism and compile purity on real documents.",
+         "TLC model checking of histories and schedules + replay on re-used / concurrently running real objects"),
+ "C16": ("model_checking", "Layout.tla: ApplyT / Admissible / Adjust for six transformations; MC_Layout checks Result(T(doc)) = Adjust(Result(doc)) for every document <= N over a "
+         "menu x every admissible application and replays each; Trace_Layout evaluates the same relation with TLC on the implementation's recorded results for corpus, "
+         "generated and noisy documents (the harness's text transformation is itself checked against ApplyT); file versus string through real files.",
+         "TLC model checking + spec->code replay + relation checked by TLC on recorded implementation results"),
+ "C19": ("model_checking", "Markdown.tla: header / bullet / table-row / back-tick tag matching; complete enumeration 80 dialects x listed keywords x depth 0..7 / bullet x "
+         "separator x indentation (143k lines) and rows/tag lines over small alphabets; clause-by-clause invariants on the spec; every case replayed on the real "
+         "GherkinInMarkdownTokenMatcher.match_* methods (negative cases: no keyword method matches).",
+         "TLC model checking (complete enumeration) + spec->code replay"),
 }
 
 checks = []
